@@ -555,7 +555,8 @@ class SkoolParser:
         done = False
         for non_entry, block in read_skool(skoolfile, 1):
             if non_entry:
-                non_entries.append(block)
+                if block:
+                    non_entries.append(block)
                 continue
             map_entry = None
             instruction = None
